@@ -139,7 +139,12 @@ class C06(core.PropertyCheck):
                         else:
                             body.append({"c": []})
                     pages[f] = body
-                yield {"kind": "expand", "pages": pages}
+                case = {"kind": "expand", "pages": pages}
+                if rng.random() < 0.3:
+                    # one of the included files has the shape of a page generated from giza YAML: stored under steps/<name>, its Root
+                    # names the YAML file (the include handler cannot see such a page on the file stack; it has its own guard for them)
+                    case["gen"] = rng.choice(files)
+                yield case
 
     def shrink_candidates(self, case):
         if case["kind"] == "cut":
@@ -182,6 +187,10 @@ class C06(core.PropertyCheck):
             # the same bounded excerpt a second time on the page: must be an independent copy
             tops.append(n.Directive((801,), [], "", "include", [n.Text((801,), "/inc.rst")], dict(opts)))
         index = pp.page("index.txt", tops)
+        self._p2 = None
+        if case.get("twice"):
+            # ... and a third time from another page
+            self._p2 = pp.page("p2.txt", [n.Directive((802,), [], "", "include", [n.Text((802,), "/inc.rst")], dict(opts))])
         return index, inc, d
 
     def run_impl(self, case):
@@ -190,7 +199,7 @@ class C06(core.PropertyCheck):
             model_in = [to_model(inc.ast, case["start"], case["end"])]
             before = json.dumps(nested_ids(inc.ast))
             try:
-                res = pp.run([index, inc])
+                res = pp.run([index, inc] + ([self._p2] if self._p2 is not None else []))
             except Exception as e:
                 return {"exc": type(e).__name__, "msg": str(e)[:200], "model_in": model_in}
             page = res.pages[n.FileId("index.txt")]
@@ -200,27 +209,42 @@ class C06(core.PropertyCheck):
             if case.get("twice") and len(page.ast.children) == 2:
                 a = {id(x) for c in page.ast.children[0].children for x in pp.walk(c)}
                 shared = any(id(x) in a for c in page.ast.children[1].children for x in pp.walk(c))
-            other = {str(k): [type(x).__name__ for x in v] for k, v in res.diagnostics.items() if str(k) != "index.txt" and v}
-            return {"exc": None, "model_in": model_in, "out": [nested_ids(c) for c in dd.children], "diags": diags, "other_diags": other, "shared": shared,
+            other = {str(k): [type(x).__name__ for x in v] for k, v in res.diagnostics.items() if str(k) not in ("index.txt", "p2.txt") and v}
+            again = None
+            if case.get("twice"):
+                # the diagnostics of the second directive on the page and of the one on another page (same file, same markers)
+                again = [[[type(x).__name__, x.message] for x in res.diagnostics.get(n.FileId("index.txt"), []) if x.start[0] == 801],
+                         [[type(x).__name__, x.message] for x in res.diagnostics.get(n.FileId("p2.txt"), []) if x.start[0] == 802]]
+            return {"exc": None, "model_in": model_in, "diags_again": again, "out": [nested_ids(c) for c in dd.children], "diags": diags, "other_diags": other, "shared": shared,
                     "source_untouched": json.dumps(nested_ids(inc.ast)) == before}
         # expand
         pages = []
         counter = [1]
 
+        gen = case.get("gen")
+
         def mk(spec):
             i = counter[0]
             counter[0] += 1
             if "inc" in spec:
-                return n.Directive((i,), [], "", "include", [n.Text((i,), "/" + spec["inc"])], {})
+                return n.Directive((i,), [], "", "include", [n.Text((i,), ("/steps/" if spec["inc"] == gen else "/") + spec["inc"])], {})
             return n.Section((i,), [mk(c) for c in spec["c"]])
 
         docs = {}
+        gen_yaml = None
         for f, body in case["pages"].items():
             counter_before = counter[0]
             nodes = [mk(s) for s in body]
-            pages.append(pp.page(f, nodes))
+            if f == gen:
+                from snooty.page import Page
+                gen_yaml = "steps-" + f.rsplit(".", 1)[0] + ".yaml"
+                pg = Page.create(n.FileId(gen_yaml), f, "", n.Root((0,), nodes, n.FileId(gen_yaml), {}))
+                pg.category = "steps"
+                pages.append(pg)
+            else:
+                pages.append(pp.page(f, nodes))
             docs[f] = nodes
-        model_pages = [{"file": str(p.fileid), "body": [self._doc(c) for c in p.ast.children]} for p in pages]
+        model_pages = [{"file": f, "body": [self._doc(c) for c in p.ast.children]} for f, p in zip(case["pages"], pages)]
         try:
             res = pp.run(pages)
         except RecursionError:
@@ -228,8 +252,8 @@ class C06(core.PropertyCheck):
         except Exception as e:
             return {"exc": type(e).__name__, "msg": str(e)[:200], "model_pages": model_pages}
         out = [self._out(c) for c in res.pages[n.FileId("index.txt")].ast.children]
-        diags = sorted([str(k), type(x).__name__, x.start[0]] for k, v in res.diagnostics.items() for x in v
-                       if type(x).__name__ in ("CannotOpenFile", "InvalidInclude"))
+        diags = sorted([gen if str(k) in (gen_yaml, "steps/" + str(gen)) else str(k), type(x).__name__, x.start[0]]
+                       for k, v in res.diagnostics.items() for x in v if type(x).__name__ in ("CannotOpenFile", "InvalidInclude"))
         # aliasing probe: two expansions of the same file must be distinct objects
         roots = {}
         shared = False
@@ -241,9 +265,14 @@ class C06(core.PropertyCheck):
                 roots.setdefault(str(node.fileid), []).append(node)
         return {"exc": None, "model_pages": model_pages, "out": out, "diags": diags, "shared": shared}
 
+    @staticmethod
+    def _arg(node):
+        a = node.argument[0].value.strip("/")
+        return a[len("steps/"):] if a.startswith("steps/") else a
+
     def _doc(self, node):
         if isinstance(node, n.Directive) and node.name == "include":
-            return {"id": node.span[0], "inc": node.argument[0].value.strip("/")}
+            return {"id": node.span[0], "inc": self._arg(node)}
         return {"id": node.span[0], "c": [self._doc(c) for c in node.children]}
 
     def _out(self, node):
@@ -252,7 +281,7 @@ class C06(core.PropertyCheck):
             if node.children:
                 root = node.children[0]
                 body = [self._out(c) for c in root.children]
-            return {"id": node.span[0], "inc": node.argument[0].value.strip("/"), "body": body}
+            return {"id": node.span[0], "inc": self._arg(node), "body": body}
         return {"id": node.span[0], "c": [self._out(c) for c in node.children]}
 
     # ------------------------------------------------------------------ model
@@ -318,6 +347,9 @@ class C06(core.PropertyCheck):
             got_k = self.diag_kinds(impl["diags"])
             if sorted(got_k) != sorted(self.expected_diags(case, model)):
                 return f"diagnostics differ: model {self.expected_diags(case, model)} impl {got_k}"
+            for which, ds in zip(("second include directive on the page", "include directive on another page"), impl.get("diags_again") or []):
+                if sorted(self.diag_kinds(ds)) != sorted(self.expected_diags(case, model)):
+                    return f"diagnostics of the {which} (same file, same markers) differ: model {self.expected_diags(case, model)} impl {self.diag_kinds(ds)}"
             if model["ok"]:
                 repl = [{"id": 900, "c": [{"id": 901, "c": [{"id": 902, "c": []}]}]}] if case.get("replacement") else []
                 want = repl + (model["out"] if (case["start"] or case["end"]) else [impl["model_in"][0] and strip(impl["model_in"][0])])
@@ -403,13 +435,15 @@ class C06(core.PropertyCheck):
         kinds = self.diag_kinds(impl["diags"])
         s = starts[0] if (starts and case["start"]) else None
         e = ends[0] if (ends and case["end"]) else None
-        if case["start"] and not starts and "nostart" not in kinds:
-            return "missing start-after marker not reported"
-        if case["end"] and not ends and "noend" not in kinds:
-            return "missing end-before marker not reported"
+        for which, ks in [("", kinds)] + [(f" ({w})", self.diag_kinds(ds)) for w, ds in
+                                           zip(("second directive on the page", "directive on another page"), impl.get("diags_again") or [])]:
+            if case["start"] and not starts and "nostart" not in ks:
+                return "missing start-after marker not reported" + which
+            if case["end"] and not ends and "noend" not in ks:
+                return "missing end-before marker not reported" + which
+            if s is not None and e is not None and e < s and "reversed" not in ks:
+                return "reversed markers not reported" + which
         if s is not None and e is not None and e < s:
-            if "reversed" not in kinds:
-                return "reversed markers not reported"
             return None
         if any(k not in ("nostart", "noend") for k in kinds) or ("nostart" in kinds and starts and case["start"]) or ("noend" in kinds and ends and case["end"]):
             return f"spurious diagnostics {kinds}"
